@@ -3,7 +3,7 @@ From LV Require Import Base Toml FS LayerEnv LayerShared LayerEnvFS SpecDocs Lay
 From LV.Checks Require Import C01Hold C01Agree.
 From LVGen Require Import GenLayerShared.
 From LVGen Require GenLayerSharedImp.
-From LV Require LayerSboms LayerSbomsFacts LayerSharedFacts.
+From LV Require LayerSboms LayerSbomsFacts LayerSharedFacts WriteLayerFacts Determinism.
 From Coq Require Import String.
 Open Scope string_scope.
 Open Scope N_scope.
@@ -151,3 +151,34 @@ Theorem c01_replace_sboms_exact :
         end.
 Proof. exact LV.LayerSbomsFacts.replace_sboms_exact. Qed.
 Print Assumptions c01_replace_sboms_exact.
+
+(* ---- shared::write_layer (what creates a layer after delete_layer, and rewrites the document of a
+   kept one), regenerated statement by statement from the source (GenLayerSharedImp.gen_write_layer; the
+   TOML encoding of the content metadata is a parameter).  In a layers directory reached through
+   searchable real directories and writable (Determinism.simple_dir): *)
+(* a layer that does not exist -- what delete_layer leaves -- becomes exactly a fresh directory and a fresh
+   content-metadata document; the resulting file system is given in full, so nothing else changes *)
+Theorem c01_write_layer_fresh :
+  forall (T : Type) (enc : T -> tv) layers n (lcm : T),
+    LV.FSFacts.valid_name n = true -> LV.FSFacts.valid_name (n ++ [46; 116; 111; 109; 108]) = true ->
+    forall s,
+      LV.Determinism.simple_dir s layers ->
+      pget (layers ++ [n]) s = None -> pget (layers ++ [n ++ [46; 116; 111; 109; 108]]) s = None ->
+      LVGen.GenLayerSharedImp.gen_write_layer enc layers n lcm s =
+      (pset (layers ++ [n ++ [46; 116; 111; 109; 108]]) (File mode_file_default (Doc (enc lcm)))
+            (pset (layers ++ [n]) (Dir mode_dir_default) s), Ok tt).
+Proof. intros T enc layers n lcm Vn Vt. exact (LV.WriteLayerFacts.write_layer_fresh enc layers n lcm Vn Vt). Qed.
+Print Assumptions c01_write_layer_fresh.
+
+(* a layer directory that exists, with a regular writable document or none: only the document changes *)
+Theorem c01_write_layer_existing :
+  forall (T : Type) (enc : T -> tv) layers n (lcm : T),
+    LV.FSFacts.valid_name n = true -> LV.FSFacts.valid_name (n ++ [46; 116; 111; 109; 108]) = true ->
+    forall s md,
+      LV.Determinism.simple_dir s layers -> pget (layers ++ [n]) s = Some (Dir md) ->
+      (pget (layers ++ [n ++ [46; 116; 111; 109; 108]]) s = None \/
+       exists m c, pget (layers ++ [n ++ [46; 116; 111; 109; 108]]) s = Some (File m c) /\ has_w m = true) ->
+      exists m, LVGen.GenLayerSharedImp.gen_write_layer enc layers n lcm s =
+                (pset (layers ++ [n ++ [46; 116; 111; 109; 108]]) (File m (Doc (enc lcm))) s, Ok tt).
+Proof. intros T enc layers n lcm Vn Vt. exact (LV.WriteLayerFacts.write_layer_existing enc layers n lcm Vn Vt). Qed.
+Print Assumptions c01_write_layer_existing.
